@@ -49,12 +49,38 @@ func racDir() string {
 	return "/verif/rac"
 }
 
+// supportHarness: bounded harnesses run in support of a property whose own deciding obligations are
+// per-function contracts: the optimizer and the compiler sit between those contracts and what a script
+// observes, and are themselves only covered by the bounded checks.
+var supportHarness = map[string][]string{"C01": {"C02", "C03", "C14"}, "C05": {"C02", "C03"}, "C15": {"C03"}, "C16": {"C03"}, "C08": {"C08", "C13"}, "C13": {"C13", "C08"}, "C12": {"C13"}, "C14": {"C14"}}
+
 func runBounded(id, tier string, seed int, findings []*finding, res *propResult) (violLines, knownLines, notes []string) {
+	return runHarness(id, id, tier, seed, findings, res)
+}
+
+// runHarness runs harness hid and reports under property id (hid == id: the property's own bounded check;
+// otherwise supporting evidence: counts go under separate keys and the probes of listed findings are skipped)
+func runHarness(id, hid, tier string, seed int, findings []*finding, res *propResult) (violLines, knownLines, notes []string) {
+	own := id == hid && isBounded(id)
 	cov := res.ev.Coverage
-	n := map[string]int{"C02": 600, "C03": 3000, "C18": 2500}[id]
+	if !own {
+		cov = map[string]interface{}{}
+		defer func() {
+			sup, _ := res.ev.Coverage["bounded_support"].(map[string]interface{})
+			if sup == nil {
+				sup = map[string]interface{}{}
+			}
+			sup["rac."+hid] = cov
+			res.ev.Coverage["bounded_support"] = sup
+		}()
+	}
+	n := map[string]int{"C02": 600, "C03": 3000, "C18": 2500, "C08": 6000, "C13": 1500, "C14": 1}[hid]
 	big := "0"
 	if tier == "thorough" {
-		n = map[string]int{"C02": 12000, "C03": 120000, "C18": 60000}[id]
+		n = map[string]int{"C02": 12000, "C03": 120000, "C18": 60000, "C08": 400000, "C13": 40000, "C14": 4}[hid]
+		if !own {
+			n /= 4
+		}
 		big = "1"
 	}
 	tmp, err := os.MkdirTemp("", "govc-rac-")
@@ -74,7 +100,7 @@ func runBounded(id, tier string, seed int, findings []*finding, res *propResult)
 	ovPath := filepath.Join(tmp, "overlay.json")
 	os.WriteFile(ovPath, data, 0o644)
 	out := filepath.Join(tmp, "report.json")
-	cmd := exec.Command("go", "test", "-tags", "verif", "-overlay", ovPath, "-vet=off", "-count=1", "-timeout", "3000s", "-run", "^TestRAC_"+id+"$", ".")
+	cmd := exec.Command("go", "test", "-tags", "verif", "-overlay", ovPath, "-vet=off", "-count=1", "-timeout", "3000s", "-run", "^TestRAC_"+hid+"$", ".")
 	cmd.Dir = abs
 	cmd.Env = append(os.Environ(), "GOFLAGS=-mod=mod", "GOPROXY=off", "GOSUMDB=off", "GOTOOLCHAIN=local",
 		fmt.Sprintf("RAC_N=%d", n), "RAC_BIG="+big, fmt.Sprintf("VERIF_SEED=%d", seed), "RAC_OUT="+out)
@@ -89,8 +115,8 @@ func runBounded(id, tier string, seed int, findings []*finding, res *propResult)
 		if len(msg) > 1500 {
 			msg = msg[len(msg)-1500:]
 		}
-		path := writeBoundedReplay(id, "rac."+id+".harness", map[string]string{"reason": "the bounded harness did not complete: " + fmt.Sprint(runErr), "output": msg})
-		violLines = append(violLines, fmt.Sprintf("VIOLATION property=%s replay=%s obligation=rac.%s.harness status=did-not-complete no-failing-input-found", id, path, id))
+		path := writeBoundedReplay(id, "rac."+hid+".harness", map[string]string{"reason": "the bounded harness did not complete: " + fmt.Sprint(runErr), "output": msg})
+		violLines = append(violLines, fmt.Sprintf("VIOLATION property=%s replay=%s obligation=rac.%s.harness status=did-not-complete no-failing-input-found", id, path, hid))
 		cov["evaluations"] = 0
 		return
 	}
@@ -103,12 +129,21 @@ func runBounded(id, tier string, seed int, findings []*finding, res *propResult)
 			"C02": "each under all 16 truth assignments of its conditions x 3 iterable shapes (empty, one, many) x optimised/unoptimised",
 			"C03": "plus user-defined functions and constant arithmetic next to every construct; each run 6 times in sequence on two evaluators (optimised / NoOptimize)",
 			"C18": "plus user-defined functions; the code held by the machine (optimised and not, main and function bodies) is walked on all paths by the structural verifier",
-		}[id], map[string]string{
+			"C14": "19 patterns (leading groups, inline flags, escapes, alternation) x 5 flag spellings x 18 subjects x {~=, !~} x optimised/unoptimised",
+			"C13": "the full product of 28 invalid fragments (assignment to non-variables, nested ternaries, unterminated literals and brackets, missing operands, illegal characters) x 29 enclosing contexts, plus random nestings of two contexts",
+			"C08": "a quarter each: generated valid scripts, the same with tokens deleted / duplicated / swapped / replaced, random sequences of the language's tokens, random bytes; each through Prepare (both modes), Execute, Run and Dump",
+		}[hid], map[string]string{
 			"C02": "Oracle: a reference interpreter of the fragment written from the language definition (rac_gen_test.go).",
 			"C03": "Oracle: equality of result, host-call sequence, variables left and stack residue.",
+			"C08": "Oracle: no panic reaches the caller of the API.",
+			"C14": "Oracle: Go's regexp package on the pattern the literal denotes (backslash takes the next character literally; flags i and m), applied per trimmed line as the match built-in does.",
+			"C13": "Oracle: Prepare returns an error (and does not panic) for every invalid fragment in every context.",
 			"C18": "Oracle: known opcodes, complete operands, jump targets on instruction starts inside the body, constant references in range and of the right kind, function bodies never run off their end, no operand underflow on any path.",
-		}[id])
+		}[hid])
 	var samples []interface{}
+	if !own {
+		rep.Probes = nil
+	}
 	for _, s := range rep.Samples {
 		samples = append(samples, map[string]string{"script": s})
 	}
@@ -118,9 +153,9 @@ func runBounded(id, tier string, seed int, findings []*finding, res *propResult)
 	cov["samples"] = samples
 	cov["bounded_exclusions"] = rep.Notes
 	for _, v := range rep.Violations {
-		name := fmt.Sprintf("rac.%s.%s", id, v.Kind)
+		name := fmt.Sprintf("rac.%s.%s", hid, v.Kind)
 		path := writeBoundedReplay(id, name+"."+fmt.Sprint(len(violLines)+1), map[string]string{"obligation": name, "script": v.Script, "input": v.Input, "expected": v.Expected, "got": v.Got,
-			"replay_status": "failing input found by the bounded harness on the real code (go test -overlay; rerun: /verif/tools/rac.sh " + id + ")"})
+			"replay_status": "failing input found by the bounded harness on the real code (go test -overlay; rerun: /verif/tools/rac.sh " + hid + ")"})
 		violLines = append(violLines, fmt.Sprintf("VIOLATION property=%s replay=%s obligation=%s status=failed input=%q", id, path, name, trunc(strings.ReplaceAll(v.Script, "\n", " "), 200)))
 	}
 	// several inputs may probe one listed finding: it reproduces if any of them fails
@@ -137,7 +172,7 @@ func runBounded(id, tier string, seed int, findings []*finding, res *propResult)
 		probes = append(probes, p)
 	}
 	for _, p := range probes {
-		name := fmt.Sprintf("rac.%s.probe.%s", id, p.ID)
+		name := fmt.Sprintf("rac.%s.probe.%s", hid, p.ID)
 		var hit *finding
 		for _, f := range findings {
 			if f.Kind == "finding" && f.re.MatchString(name) && strings.Contains(","+f.Property+",", ","+id+",") {
